@@ -380,6 +380,7 @@ func c11Search(c *Ctx, tables []bitmap) {
 	type seedGroup struct {
 		states []*pState
 		depth  int
+		name   string
 	}
 	var groups []seedGroup
 	fullN, maxTriN := 7, 10
@@ -423,7 +424,15 @@ func c11Search(c *Ctx, tables []bitmap) {
 		}
 		c.Count(fmt.Sprintf("triangulation_seeds_n%d", n), int64(len(levels[n])))
 	}
-	groups = append(groups, seedGroup{triSeeds, depthAll})
+	// the 53100 triangulations on 8 vertices (thorough) are evaluated but not expanded; all others get depthAll
+	var triSmall, triEight []*pState
+	for _, st := range triSeeds {
+		if st.g.n == 8 && fullN >= 8 {
+			triEight = append(triEight, st)
+		} else {
+			triSmall = append(triSmall, st)
+		}
+	}
 	var named []*pState
 	for name, g := range namedPlanarSeeds() {
 		named = append(named, &pState{g: g, planar: true, trace: []string{name}})
@@ -432,7 +441,8 @@ func c11Search(c *Ctx, tables []bitmap) {
 		named = append(named, &pState{g: g, planar: false, trace: []string{name}})
 	}
 	sort.Slice(named, func(i, j int) bool { return named[i].trace[0] < named[j].trace[0] })
-	groups = append(groups, seedGroup{named, depthNamed}, seedGroup{triReps, depthNamed - 1})
+	// deepest groups first, so that a state cap can only cut the shallow tail
+	groups = append(groups, seedGroup{named, depthNamed, "named"}, seedGroup{triReps, depthNamed - 1, "triangulation_representatives"})
 	var subs []*pState
 	lim := 11
 	if c.Thorough() {
@@ -444,7 +454,7 @@ func c11Search(c *Ctx, tables []bitmap) {
 	subdivisions(namedNonplanarSeeds()["K3,3"], lim, func(g *BGr, d string) {
 		subs = append(subs, &pState{g: g, planar: false, trace: []string{"K3,3 subdivided " + d}})
 	})
-	groups = append(groups, seedGroup{subs, depthAll})
+	groups = append(groups, seedGroup{subs, depthAll, "subdivisions"}, seedGroup{triSmall, depthAll, "triangulations"}, seedGroup{triEight, 0, "triangulations_n8"})
 	c.Count("subdivision_seeds", int64(len(subs)))
 
 	km8 := kuratowskiMasks(8)
@@ -487,9 +497,13 @@ func c11Search(c *Ctx, tables []bitmap) {
 				frontier = append(frontier, s)
 			}
 		}
+		grpStates := int64(0)
 		for depth := 0; ; depth++ {
 			evalBatch(frontier)
 			states += int64(len(frontier))
+			grpStates += int64(len(frontier))
+			c.Bound("partB_"+grp.name+"_depth_evaluated", depth)
+			c.SetCount("partB_"+grp.name+"_states", grpStates)
 			for _, s := range frontier {
 				if s.g.n >= 9 {
 					big++
